@@ -409,6 +409,11 @@ func casesUciPosition(c *caseCtx) {
 	emit([]string{"position fen 4k3/8/8/8/8/8/8/R3K3 w Q - 0 1", "position fen 4k3/8/8/8/8/8/8/R3K3 w Q - 0 10 moves a1a2"})
 	emit([]string{"position fen 4k3/8/8/8/8/8/8/R3K3 w Q - 0 1", "position fen 4k3/8/8/8/8/8/8/R3K3 w Q - 0 1 moves a1a2", "position fen 4k3/8/8/8/8/8/8/R3K3 w Q - 0 1 moves a1a2 e8d8 a2a1 d8e8 a1a2 e8d8 a2a1 d8e8"})
 	emit([]string{"position startpos moves g1f3 g8f6 f3g1 f6g8", "position startpos moves g1f3 g8f6 f3g1 f6g8 g1f3 g8f6 f3g1 f6g8", "position startpos moves g1f3 g8f6 f3g1 f6g8 g1f3 g8f6 f3g1 f6g8 g1f3"})
+	// the current position re-sent as a FEN is a NEW game: no history, the clocks of the FEN
+	emit([]string{"position startpos moves g1f3 g8f6 f3g1 f6g8", "position fen rnbqkbnr/pppppppp/8/8/8/8/PPPPPPPP/RNBQKBNR w KQkq - 4 3", "position fen rnbqkbnr/pppppppp/8/8/8/8/PPPPPPPP/RNBQKBNR w KQkq - 4 3 moves g1f3 g8f6 f3g1 f6g8"})
+	emit([]string{"position startpos moves g1f3 g8f6 f3g1 f6g8", "ucinewgame", "position fen rnbqkbnr/pppppppp/8/8/8/8/PPPPPPPP/RNBQKBNR w KQkq - 4 3 moves g1f3 g8f6 f3g1 f6g8"})
+	emit([]string{"position startpos moves g1f3 g8f6 f3g1 f6g8", "position startpos", "position startpos moves g1f3 g8f6"})
+	emit([]string{"position fen 8/8/4k3/8/8/4K3/4P3/8 w - - 37 60", "position fen 8/8/4k3/8/8/4K3/4P3/8 w - - 0 1", "position fen 8/8/4k3/8/8/4K3/4P3/8 w - - 0 1 moves e3d3"})
 	for g := 0; g < c.scale(60, 1500); g++ {
 		// one game, sent as a GUI would: growing move lists, occasional repeats, shortenings, new games
 		start := "startpos"
@@ -440,6 +445,40 @@ func casesUciPosition(c *caseCtx) {
 				lines = append(lines, "ucinewgame")
 			case r == 1 && len(moves) > 0:
 				lines = append(lines, line(len(moves))) // verbatim
+			case (r == 3 || r == 4) && len(moves) > 0:
+				// the GUI switches to describing the game by the FEN of the current position: a new game
+				// starting there (no history), with the current clocks or with fresh ones
+				if b, err := fen.NewBoard(startFen); err == nil {
+					okAll := true
+					for i := range moves {
+						cur := sts[i]
+						found := false
+						for _, m := range legalMoves(cur.pos, cur.turn) {
+							if uciMove(m) == moves[i] {
+								found = b.PushMove(m)
+								break
+							}
+						}
+						if !found {
+							okAll = false
+							break
+						}
+					}
+					if okAll {
+						np, fm := b.NoProgress(), b.FullMoves()
+						if r == 4 {
+							np, fm = 0, 1
+						}
+						startFen = fen.Encode(b.Position(), b.Turn(), np, fm)
+						start = "fen " + startFen
+						sts = sts[len(sts)-1:]
+						moves = nil
+						if c.r.Intn(3) == 0 {
+							lines = append(lines, "ucinewgame")
+						}
+						lines = append(lines, line(0))
+					}
+				}
 			case r == 2 && len(moves) > 1:
 				n := c.r.Intn(len(moves))
 				moves = moves[:n]
